@@ -112,7 +112,7 @@ func emitListIdx(t *srcTree) {
 	fmt.Println("]")
 }
 
-// astIndexSites: every index expression with a LITERAL index into a slice of a go/ast node (`.Names[0]`, `.List[0]`, `.Args[0]`, ...)
+// astIndexSites: every index expression with a LITERAL index into a slice-valued FIELD (`.Names[0]`, `.List[0]`, `.GoFiles[0]`, ...)
 // in cmd/ and internal/, with the enclosing function and the `len(...)` tests of that function that speak about a slice of the
 // same field name. Used by C18: the theorem pins, per site, the guards the function has - a site that loses its guard (or a new
 // unguarded site) breaks it. (`p.Names[0]` on a parameter declared without a name and `recv.Names[0]` on an unnamed receiver were
@@ -151,7 +151,7 @@ func emitAstIndex(t *srcTree) {
 				return true
 			}
 			sel, ok := ix.X.(*ast.SelectorExpr)
-			if !ok || !astSliceFields[sel.Sel.Name] {
+			if !ok {
 				return true
 			}
 			lit, ok := ix.Index.(*ast.BasicLit)
